@@ -1,12 +1,149 @@
 import Librfn.Model.Hex
+import Librfn.Spec.Hex
+import Librfn.Lemmas.Hex
 /-!
 # C18 — hex dump output parses back to the same bytes; the parser is safe on any text
+
+Model: `Librfn.Model.Hex` (hand transcription of `hex.c`: a C string is a byte list with an explicit NUL,
+every read `rd` and every pointer step `adv` is checked and yields the outcome `.oob` when it leaves the
+string; the `goto` structure of `hex_get_byte` is a recursion on the rest of the string).
+Spec: `Librfn.Spec.Hex` (the dump format and the accepted syntax, written from the property text).
+
+All theorems quantify over **every** byte array / byte string of any length and over any number of calls.
+Kernel-only (no `bv_decide`); facts about single characters are decided by enumerating the 256 bytes.
 -/
 namespace Librfn.C18
 open Librfn.Model.Hex
+open Librfn.Lemmas.Hex
+
+/-! ## repeated calls -/
+
+/-- the calls starting with outcome `o` return `vs` and then -1 for ever (`again`: calling style, see
+    `Model.Hex.nextCall`) -/
+inductive Yields (again : Bool) : Out → List Int → Prop
+  | done : Yields again .done []
+  | byte (v : Int) (p : Str) (vs : List Int) :
+      Yields again (nextCall again (.byte v p)) vs → Yields again (.byte v p) (v :: vs)
+
+theorem nextCall_byte (again : Bool) (v : Int) (p : Str) : nextCall again (.byte v p) = parse1 again p := by
+  cases again <;> rfl
+
+theorem nextCall_done (again : Bool) : nextCall again .done = .done := by
+  cases again <;> rfl
+
+theorem traceFrom_done (again : Bool) : ∀ n, traceFrom again n .done = List.replicate n .done := by
+  intro n
+  induction n with
+  | zero => rfl
+  | succ n ih => rw [traceFrom, nextCall_done, ih]; rfl
+
+theorem take_append_replicate {α : Type} (x : α) : ∀ (l : List α) (n m : Nat), n ≤ m →
+    (l ++ List.replicate m x).take n = (l ++ List.replicate n x).take n := by
+  intro l
+  induction l with
+  | nil => intro n m h; simp [List.take_replicate, Nat.min_eq_left h]
+  | cons a l ih =>
+    intro n m h
+    cases n with
+    | zero => rfl
+    | succ n =>
+      simp only [List.cons_append, List.take_succ_cons]
+      rw [ih n m (by omega), ih n (n + 1) (by omega)]
+
+/-- what `Yields` means for the observable sequence of return values: for **every** number of calls `n`
+    the first `n` results are the first `n` elements of `vs` followed by -1, -1, … -/
+theorem yields_trace {again : Bool} {o : Out} {vs : List Int} (h : Yields again o vs) :
+    ∀ n, (traceFrom again n o).map retOf = (vs.map some ++ List.replicate n (some (-1))).take n := by
+  induction h with
+  | done => intro n; rw [traceFrom_done]; simp [retOf]
+  | byte v p vs _ ih =>
+    intro n
+    cases n with
+    | zero => rfl
+    | succ n =>
+      rw [traceFrom, List.map_cons, ih n]
+      simp only [retOf, List.map_cons, List.cons_append, List.take_succ_cons]
+      rw [take_append_replicate _ _ n (n + 1) (by omega)]
+
+/-! ## parser_safe -/
+
+theorem yields_of_any (again : Bool) : ∀ (n : Nat) (nl : Bool) (s : Str), s.length ≤ n →
+    ∃ vs : List Int, Yields again (parse1 nl s) vs ∧ 2 * vs.length ≤ s.length ∧ ∀ v ∈ vs, 0 ≤ v ∧ v ≤ 255 := by
+  intro n
+  induction n with
+  | zero =>
+    intro nl s h
+    rcases parse1_good _ nl s (Nat.le_refl _) with e | ⟨v, p, _, _, _, hl, _⟩
+    · exact ⟨[], by rw [e]; exact .done, by simp, by simp⟩
+    · omega
+  | succ n ih =>
+    intro nl s h
+    rcases parse1_good _ nl s (Nat.le_refl _) with e | ⟨v, p, e, h0, h1, hl, _⟩
+    · exact ⟨[], by rw [e]; exact .done, by simp, by simp⟩
+    · obtain ⟨vs, y, hlen, hr⟩ := ih again p (by omega)
+      refine ⟨v :: vs, ?_, ?_, ?_⟩
+      · rw [e]; exact .byte v p vs (by rw [nextCall_byte]; exact y)
+      · simp only [List.length_cons]; omega
+      · intro x hx
+        cases hx with
+        | head => exact ⟨h0, h1⟩
+        | tail _ hx => exact hr x hx
+
+/-- **For every string (any bytes, any length) and both calling styles**: there is a finite list `vs` of at
+    most `len/2` values, each in 0…255, such that for every number of calls `n` the results are `vs` followed
+    by -1 for ever.  Every entry is a genuine `int` result (`retOf` is `none` for the outcomes `.oob` = "read
+    or pointer step beyond the NUL" and `.nofuel`), so no call leaves the string, -1 is reached after at most
+    `len/2` byte results and is sticky. -/
+theorem parser_safe (again : Bool) (text : Str) :
+    ∃ vs : List Int, 2 * vs.length ≤ text.length ∧ (∀ v ∈ vs, 0 ≤ v ∧ v ≤ 255) ∧
+      ∀ n, (trace again n text).map retOf = (vs.map some ++ List.replicate n (some (-1))).take n := by
+  obtain ⟨vs, y, hl, hr⟩ := yields_of_any again text.length true text (Nat.le_refl _)
+  exact ⟨vs, hl, hr, yields_trace y⟩
+
+/-- no call ever ends in the outcome "access beyond the NUL" (nor exhausts the model's recursion budget) -/
+theorem parser_no_fault (again : Bool) (text : Str) (n : Nat) :
+    ∀ o ∈ trace again n text, o ≠ .oob ∧ o ≠ .nofuel := by
+  intro o ho
+  obtain ⟨vs, _, _, h⟩ := parser_safe again text
+  have hm : retOf o ∈ (trace again n text).map retOf := List.mem_map_of_mem ho
+  rw [h n] at hm
+  have hm := List.mem_of_mem_take hm
+  have : ∃ v, retOf o = some v := by
+    rcases List.mem_append.mp hm with h1 | h1
+    · obtain ⟨v, _, e⟩ := List.mem_map.mp h1; exact ⟨v, e.symm⟩
+    · exact ⟨-1, (List.eq_of_mem_replicate h1)⟩
+  obtain ⟨v, e⟩ := this
+  constructor <;> (intro e'; rw [e'] at e; cases e)
+
+/-- `*p` always stays inside the string: it is a suffix of the text (possibly the empty one, i.e. the NUL) -/
+theorem ptr_within (again : Bool) (text : Str) : ∀ (n : Nat) (nl : Bool) (s : Str), s <:+ text →
+    ∀ o ∈ traceFrom again n (parse1 nl s), ∀ v p, o = .byte v p → p <:+ text := by
+  intro n
+  induction n with
+  | zero => intro nl s _ o ho; cases ho
+  | succ n ih =>
+    intro nl s hs o ho v p e
+    rw [traceFrom] at ho
+    rcases parse1_good _ nl s (Nat.le_refl _) with e1 | ⟨v1, p1, e1, _, _, _, suf⟩
+    · rw [e1, nextCall_done, traceFrom_done] at ho
+      cases ho with
+      | head => cases e
+      | tail _ h => rw [List.eq_of_mem_replicate h] at e; cases e
+    · rw [e1, nextCall_byte] at ho
+      cases ho with
+      | head => cases e; exact suf.trans hs
+      | tail _ h => exact ih again p1 (suf.trans hs) o h v p e
+
+theorem parser_ptr_within (again : Bool) (text : Str) (n : Nat) :
+    ∀ o ∈ trace again n text, ∀ v p, o = .byte v p → p <:+ text :=
+  ptr_within again text n true text (List.suffix_refl _)
+
+/-- non-vacuity: a string with a `0x` prefix, junk, a second line and a lone digit at the very end -/
+example : (trace false 6 [48, 120, 49, 50, 32, 122, 122, 10, 65, 98, 51]).map retOf
+    = [some 18, some 171, some (-1), some (-1), some (-1), some (-1)] := by decide +kernel
 
 /-- on the characters `isxdigit` accepts, `nibble` is the digit's value (so `byteVal` loses nothing) -/
-theorem nibble_xdigit_nat : ∀ n : Nat, n < 256 → isXDigit (UInt8.ofNat n) = true →
-    0 ≤ nibble (UInt8.ofNat n) ∧ nibble (UInt8.ofNat n) < 16 := by decide +kernel
+theorem nibble_xdigit_nat (c : UInt8) (h : isXDigit c = true) : ∃ n : Nat, n < 16 ∧ nibble c = (n : Int) :=
+  nibble_xdigit c h
 
 end Librfn.C18
